@@ -99,7 +99,7 @@ def run_case(case):
                         edits.apply(p, x)
                         script.append(x)
             else:
-                script = edits.gen_script(rng, p, nedits) if nedits else []
+                script = edits.gen_script(rng, p, nedits, case.get("kinds")) if nedits else []
             out["script"] = script
             g1 = wholefile.write_text(p, sc, "g1.imcnp")
         except Exception as e:  # noqa: BLE001
@@ -271,6 +271,13 @@ CORPUS = [
     {"name": "corpus-shared-entry-split", "limit": 128, "seed": 520685, "nedits": 2,
      "script": [["importance", 0, "n", 1.23456789e-07], ["importance", 0, "n", 0.0]],
      "text": "shared cell-block entry\n36 22 3.0 -21 : 67 imp:n,p=0.\n\n21 pz 50.\n67 so 5.055\n\nm22 6000.80c 0.337\nmode n p\nnps 1000\n\n"},
+    # seeded C19c: a shared entry followed by a comment, one particle set, then the importances moved to the data block
+    {"name": "corpus-split-entry-then-data-block", "limit": 128, "seed": 4242, "nedits": 2,
+     "script": [["importance", 0, "n", 2.0], ["print_in_data_block", "imp", True]],
+     "text": "shared entries with comments\n1 0 -1 imp:n,p=1 $ inside\n2 0 1 imp:n,p=0 $ graveyard\n\n1 so 1\n\nmode n p\n\n"},
+    {"name": "corpus-split-entry-then-all", "limit": 128, "seed": 4243, "nedits": 3,
+     "script": [["importance", 0, "p", 3.0], ["importance_all", 0, 1.0], ["print_in_data_block", "imp", True]],
+     "text": "shared entries with comments\n1 0 -1 imp:n,p=1 $ inside\n2 0 1 imp:n,p=0 $ graveyard\n\n1 so 1\n\nmode n p\n\n"},
     # 3f161a1: a line break after a cell modifier's value was replaced by a blank (generation 2 differed at 80 columns)
     {"name": "corpus-modifier-line-break", "limit": 80, "seed": 891262, "nedits": 0, "script": [],
      "text": "line break after vol\n837 0 (927 :     113 ) 8   113    113 -8   imp:n=2.0000     Imp:P=1 vol=31.0\n     U 20\n"
@@ -294,6 +301,10 @@ def gen_cases(chk):
         cases.append({"name": f"gen{i}", "limit": limit, "text": text, "seed": r.randrange(10**6), "nedits": [0, 2, 5, 8][i % 4]})
         if i % 8 == 2:
             cases[-1]["revisit"] = True
+        if i % 4 == 1:
+            # histories that also switch the block a per-cell datum is printed in (seeded change C19c needed an
+            # observation between an importance edit and such a switch)
+            cases[-1]["kinds"] = edits.DEFAULT_KINDS + ["print_in_data_block", "print_in_data_block", "importance", "importance"]
     return cases
 
 
@@ -349,7 +360,7 @@ def run(chk):
                 text = wholefile.shrink_text(text, fails, c["limit"])
             rr = run_case(dict(c, text=text))
             chk.violation(sig, what, {"name": c["name"], "limit": c["limit"], "text": text, "seed": c["seed"], "nedits": c["nedits"],
-                                      "revisit": bool(c.get("revisit")), "script": rr.get("script"), "observation": {k: rr.get(k) for k in ("g1", "again", "observed", "g2") if k in rr}})
+                                      "revisit": bool(c.get("revisit")), "kinds": c.get("kinds"), "script": rr.get("script"), "observation": {k: rr.get(k) for k in ("g1", "again", "observed", "g2") if k in rr}})
 
 
 def replay(chk, payload):
@@ -357,6 +368,8 @@ def replay(chk, payload):
     c = {"name": case.get("name", "replay"), "limit": case["limit"], "text": case["text"], "seed": case.get("seed", 1), "nedits": case.get("nedits", 0)}
     if case.get("revisit"):
         c["revisit"] = True
+    if case.get("kinds"):
+        c["kinds"] = case["kinds"]
     chk.rule = "replay of one stored case"
     r = run_case(c)
     chk.note_case({"name": c["name"]})
